@@ -17,7 +17,14 @@ fn rule(prop: &str) -> &'static str {
 }
 
 fn run_worker(mode: &str, seed: u64, first: u64, count: u64) -> Vec<Value> {
-    let mut cmd = Command::new(crate::session::self_exe());
+    run_worker_with(&crate::session::self_exe(), &[], mode, seed, first, count)
+}
+
+fn run_worker_with(exe: &std::path::Path, envs: &[(String, String)], mode: &str, seed: u64, first: u64, count: u64) -> Vec<Value> {
+    let mut cmd = Command::new(exe);
+    for (k, v) in envs {
+        cmd.env(k, v);
+    }
     cmd.arg("e2").arg(mode).arg(seed.to_string()).arg(first.to_string()).arg(count.to_string());
     cmd.stdout(Stdio::piped()).stderr(Stdio::piped());
     let mut child = match cmd.spawn() {
@@ -96,6 +103,45 @@ pub fn run(prop: &'static str, tier: &str, seed: u64) -> i32 {
         let n_http = if t { 40 } else { 6 };
         let http: Vec<Value> = run_cases(n_http, 4, move |i| crate::e2h::http_round(crate::rng::mix(seed, 77_000 + i as u64)));
         results.push(http);
+    }
+    if t && std::env::var("XSMON_TSAN").map(|v| v != "0").unwrap_or(true) {
+        // ThreadSanitizer leg: the same rounds and oracles under an instrumented build (see tsan.rs)
+        match crate::tsan::build() {
+            Ok(exe) => {
+                let logdir = crate::session::work_dir("tsan");
+                let _ = std::fs::create_dir_all(&logdir);
+                let envs = vec![("TSAN_OPTIONS".to_string(), format!("halt_on_error=0 exitcode=0 report_signal_unsafe=0 log_path={}/tsan", logdir.display()))];
+                let n_workers = 8u64;
+                let per = match prop {
+                    "C02" => 6u64,
+                    "C03" => 12,
+                    _ => 16,
+                };
+                let mode_s = mode.to_string();
+                let tsan_rounds: Vec<Vec<Value>> = run_cases(n_workers as usize, 8, move |b| run_worker_with(&exe, &envs, &mode_s, seed ^ 0x75a0, 1_000_000 + b as u64 * per, per));
+                let n: usize = tsan_rounds.iter().map(|b| b.iter().filter(|r| r.get("worker_error").is_none()).count()).sum();
+                rep.count("tsan_rounds", n as u64);
+                results.extend(tsan_rounds);
+                let sum = crate::tsan::summarise(&logdir);
+                rep.extra.insert(
+                    "thread_sanitizer".into(),
+                    json!({
+                        "rounds": n,
+                        "reports": sum.total,
+                        "reports_by_kind_and_owner_of_the_two_accesses": sum.by_site,
+                        "reports_with_a_racing_access_in_xs_source": sum.in_xs,
+                        "reading": "observation only: no property here is a data-race property; reports whose accesses are both in crossbeam-epoch are TSan's known blind spot for fence-based epoch reclamation",
+                    }),
+                );
+                for x in &sum.in_xs {
+                    println!("OBSERVATION property={} thread-sanitizer report with a racing access in xs: {}", prop, x);
+                }
+                crate::session::rm_dir(&logdir);
+            }
+            Err(e) => {
+                rep.extra.insert("thread_sanitizer".into(), json!({"skipped": e}));
+            }
+        }
     }
     for batch in results {
         for r in batch {
